@@ -332,6 +332,16 @@ func traceList(err error) ([]string, []parser.SourceFilePos) {
 	return out, st
 }
 
+func c16collapse(l []string) []string {
+	var out []string
+	for i, e := range l {
+		if i == 0 || l[i-1] != e {
+			out = append(out, e)
+		}
+	}
+	return out
+}
+
 func shiftExpect(expect []string, k int) []string {
 	out := make([]string, len(expect))
 	for i, e := range expect {
@@ -408,7 +418,11 @@ func (m c16) checkChain(c *core.Ctx, ch c16chain) {
 				c.Violation("C16|no-trace|"+ch.Fail, "the failing chain returned no runtime error with a stack trace: "+fmt.Sprint(err), wit("no trace"))
 				return
 			}
-			if strings.Join(got, " ") != strings.Join(want, " ") {
+			// direct recursion through ONE call statement: the implementation lists that line once for adjacent
+			// activations; the statement ("in every function still active") does not settle whether every activation must
+			// be listed, so runs of identical adjacent entries are compared as one entry on both sides. Non-adjacent
+			// repeats (re-entered helpers, mutual recursion) are part of the order "outermost to innermost" and must be there.
+			if strings.Join(c16collapse(got), " ") != strings.Join(c16collapse(want), " ") {
 				why := "stack trace lines differ from the call/fail lines"
 				cls := "lines"
 				if len(got) != len(want) {
@@ -541,7 +555,7 @@ func (m c16) Run(c *core.Ctx) {
 	}
 	// positions at byte 0 of a file (line 1, column 1): the failing statement or the calling statement is the very first
 	// thing in the main script or in a module, with one, two or three files in the set
-	for bi, ch := range c16byteZeroChains() {
+	for bi, ch := range append(c16byteZeroChains(), c16reentrantChains()...) {
 		idx++
 		if idx%c.NBatch != c.Batch {
 			continue
@@ -568,6 +582,22 @@ func (m c16) Run(c *core.Ctx) {
 		if i%3 == 0 {
 			m.compileErrorPositions(c, c.Rng)
 		}
+	}
+}
+
+// c16reentrantChains: call graphs in which the same call statement is active more than once with other frames in between
+// (a helper re-entered through the function it calls; mutual recursion; a module function that calls back into its caller)
+func c16reentrantChains() []c16chain {
+	return []c16chain{
+		{Main: "apply := func(g, v) {\n  return g(v)\n}\ninner := func(v) {\n  return apply(func(w) {\n    throw error(\"x\")\n  }, v)\n}\nreturn apply(inner, 1)\n",
+			Expect: []string{"(main):9", "(main):2", "(main):5", "(main):2", "(main):6"}, Fail: "reentrant-helper"},
+		{Main: "var (even, odd)\neven = func(n) {\n  if n == 0 {\n    throw error(\"bottom\")\n  }\n  return odd(n - 1) + 1\n}\nodd = func(n) {\n  v := even(n - 1)\n  return v + 1\n}\nreturn even(4)\n",
+			Expect: []string{"(main):12", "(main):6", "(main):9", "(main):6", "(main):9", "(main):4"}, Fail: "mutual-recursion"},
+		{Main: "var walk\nwalk = func(n, f) {\n  if n == 0 {\n    return f(n)\n  }\n  r := walk(n - 1, f)\n  return r\n}\nres := walk(3, func(k) {\n  return [1][k + 5]\n})\nreturn res\n",
+			Expect: []string{"(main):9", "(main):6", "(main):6", "(main):6", "(main):4", "(main):10"}, Fail: "direct-recursion"},
+		{Main: "m := import(\"cb\")\nstep := func(n) {\n  if n == 0 {\n    throw error(\"deep\")\n  }\n  r := m(step, n - 1)\n  return r\n}\nout := m(step, 2)\nreturn out\n",
+			Modules: map[string]string{"cb": "return func(f, n) {\n  v := f(n)\n  return v\n}\n"},
+			Expect: []string{"(main):9", "cb:2", "(main):6", "cb:2", "(main):6", "cb:2", "(main):4"}, Fail: "module-callback-reentry"},
 	}
 }
 
